@@ -71,6 +71,7 @@ type admCase struct {
 	Probe    bool    `json:"probe"`     // accepted: a broadcast to the socket's own room arrived
 	Final    viewObs `json:"final"`     // server state at the end of the run (before shutdown)
 	FinalEvt int     `json:"final_evt"` // unexpected packets on the connection: CONNECT/CONNECT_ERROR beyond one per attempt, DISCONNECT, ACK; EVENTs on a never-admitted connection
+	Slow     bool    `json:"slow"`      // this server's run took so long that heartbeat time-outs may have interfered
 	Note     string  `json:"note,omitempty"`
 
 	mu      sync.Mutex
@@ -571,6 +572,7 @@ func runAdmServer(name string, k int, conc int, rnd *vk.Rand, nextID *int, perCo
 	if err != nil {
 		return nil, nil, err
 	}
+	t0 := time.Now()
 	var all []*admCase
 	for _, v := range enumVectors(k) {
 		for jv := 0; jv < joinVariants; jv++ {
@@ -683,7 +685,9 @@ func runAdmServer(name string, k int, conc int, rnd *vk.Rand, nextID *int, perCo
 			}
 		}
 	}
+	slow := time.Since(t0) > 15*time.Second
 	for _, c := range all {
+		c.Slow = slow
 		c.Final = r.postView(c)
 		r.mu.Lock()
 		for _, sid := range c.Sids {
